@@ -16,7 +16,10 @@ __all__ = ['CSSProductions', 'MACROS', 'PRODUCTIONS']
 # a complete list of css3 macros
 MACROS = {
     'nonascii': r'[^\0-\177]',
-    'unicode': r'\\[0-9A-Fa-f]{1,6}(?:{nl}|{s})?',
+    # (unambiguous: takes as many digits and the white space if there is any,
+    # so that a failing match cannot be retried in exponentially many ways)
+    'unicode': r'\\(?:[0-9A-Fa-f]{6}|[0-9A-Fa-f]{1,5}(?![0-9A-Fa-f]))'
+    r'(?:{nl}|{s}|(?![\n\r\f\t\x20]))',
     # 'escape': r'{unicode}|\\[ -~\200-\777]',
     'escape': r'{unicode}|\\[^\n\r\f0-9a-f]',
     'nmstart': r'[_a-zA-Z]|{nonascii}|{escape}',
